@@ -462,7 +462,7 @@ def make_world(eng, st, with_manager=True):
         nmgr = st.alloc(HObj("opaque", None, meta={"tag": "nmgr", "methods": {
             "notify": _nmgr_notify, "notify_from_exception": _nmgr_notify_exc}}))
         translate = st.alloc(HObj("opaque", None, meta={"tag": "translate", "call": _translate_call}))
-        resolver = st.alloc(HObj("opaque", None, meta={"tag": "resolver"}))
+        resolver = st.alloc(HObj("opaque", None, meta={"tag": "resolver", "call": _resolver_call}))
         fields = {
             "state": state, "providers": T([p0, p1]), "translate": translate, "_resolve_conflict": resolver,
             "tempdir": C("/tmp/x.cloudsync"), "_nmgr": nmgr, "_root_oids": NONE, "_root_paths": NONE,
@@ -514,6 +514,8 @@ def fx_world(eng, st, pname):
     install_provider_api(eng)
     install_state_contracts(eng)
     install_state_lookups(eng)
+    install_temp_contracts(eng)
+    install_split_contract(eng)
     from . import fixtures
     fixtures.install_normalize_path_model(eng)
     for nm in eng.cur_lemma.opts.get("inline", ()):
@@ -1033,3 +1035,125 @@ def havoc_value(eng, st, v, name):
         return mk_union([(z3.Int(n + "?alt") == i, havoc_value(eng, st, b, name) if not isinstance(b, R) else b)
                          for i, (g, b) in enumerate(v.alts)])
     raise OutOfSubset("cannot havoc loop variable %s of value %r" % (name, v))
+
+
+def h_make_temp_file(eng, st, self_v, args, kwargs):
+    """SyncManager.make_temp_file(ss): for a non-directory side state, ss.temp_file is a non-empty path afterwards
+    (named from the path and hash so that it is stable between runs); no provider call"""
+    ss = args[0]
+    so = st.obj(ss)
+    is_dir = P.eq(st, so.fields["_otype"], enum_member(eng, "cloudsync.types:OType", "DIRECTORY"))
+    t = P.fresh("str", "temp_file")
+    st.axiom(z3.Length(t.t) > 0)
+    so.fields["_temp_file"] = ite(is_dir, so.fields["_temp_file"], t)
+    st.touch(so, "_temp_file")
+    return eng.ok(st, NONE)
+
+
+def h_clean_temp(eng, st, self_v, args, kwargs):
+    so = st.obj(self_v)
+    kept = z3.Bool(P.fresh_name("clean_temp.kept"))
+    so.fields["_temp_file"] = ite(kept, so.fields["_temp_file"], NONE)
+    st.touch(so, "_temp_file")
+    return eng.ok(st, NONE)
+
+
+def install_temp_contracts(eng):
+    eng.handlers["cloudsync.sync.manager:SyncManager.make_temp_file"] = h_make_temp_file
+    eng.handlers["cloudsync.sync.state:SideState.clean_temp"] = h_clean_temp
+
+
+def _resolver_call(eng, st, fv, args, kwargs):
+    """The application's conflict resolver: an arbitrary callable.  Behaviours enumerated (one path each):
+    picks either handle x keep, returns new merged data x keep, returns None, a non-tuple, a tuple of the wrong
+    length, a tuple whose first element is not file-like, raises CloudTemporaryError, raises another exception."""
+    st.effects.append(Effect("app", "resolve_conflict", list(args), {}, None))
+    res = []
+    keep = P.fresh("bool", "resolver.keep")
+
+    def out(s, v, beh):
+        s.ghost["resolver_behaviour"] = beh
+        res.append((s, (VAL, v)))
+    for i, a in enumerate(args[:2]):
+        out(st.clone(), T([a, keep]), "pick%d" % i)
+    s = st.clone()
+    noop = lambda e, s_, r, a, k: e.ok(s_, NONE)
+    merged = s.alloc(HObj("opaque", None, meta={"tag": "merged_fh", "methods": {"read": noop, "close": noop, "seek": noop}}))
+    out(s, T([merged, keep]), "merged")
+    out(st.clone(), NONE, "none")
+    out(st.clone(), C(5), "non-tuple")
+    out(st.clone(), T([args[0], keep, C(1)]), "wrong-length")
+    out(st.clone(), T([C(5), keep]), "not-file-like")
+    s = st.clone()
+    s.ghost["resolver_behaviour"] = "raise-temporary"
+    res.append((s, (RAISE, eng.new_exc(s, cls(eng, "cloudsync.exceptions:CloudTemporaryError")))))
+    s = st
+    s.ghost["resolver_behaviour"] = "raise-other"
+    others = [ClassRef("Exception"), ClassRef("ValueError"), cls(eng, "cloudsync.exceptions:CloudFileNotFoundError"),
+              cls(eng, "cloudsync.exceptions:CloudException")]
+    res.append((s, (RAISE, eng.sym_exc(s, others, prefix="resolver.exc"))))
+    return res
+
+
+def _b_resolver_behaviour(eng, st, recv, args, kwargs):
+    return eng.ok(st, C(st.ghost.get("resolver_behaviour", "not-called")))
+
+
+B.BUILTIN_FUNCS["resolver_behaviour"] = _b_resolver_behaviour
+
+
+def h_split(eng, st, self_v, args, kwargs):
+    """contract of SyncState.split(ent): the LOCAL side state moves to a new entry `replace_ent`; `ent` keeps its
+    REMOTE side and gets a cleared LOCAL side; both moved sides are marked changed and forget their sync_path.
+    Returns (ent, REMOTE, replace_ent, LOCAL).  Precondition: ent[LOCAL].oid is set (asserted by the code)."""
+    ent = args[0]
+    lo = st.obj(side_of(st, ent, 0))
+    has_oid = P.truth(st, lo.fields["_oid"])
+    st.pending = []
+    res = []
+    for s, b in eng.branch(st, has_oid):
+        if not b:
+            res.append(eng.raise_new(s, "AssertionError", "split: ent[replace].oid"))
+            continue
+        new = make_entry(eng, s, self_v, P.fresh_name("split.replace"))
+        nlo = s.obj(side_of(s, new, 0))
+        olo = s.obj(side_of(s, ent, 0))
+        for f in ("_otype", "_hash", "_sync_hash", "_path", "_oid", "_exists", "_force_sync", "_temp_file", "_size",
+                  "_mtime", "_saved_exists", "_last_gotten"):
+            nlo.fields[f] = olo.fields[f]
+        nlo.fields["_sync_path"] = NONE
+        t1 = z3.Real(P.fresh_name("split.changed.replace"))
+        t2 = z3.Real(P.fresh_name("split.changed.defer"))
+        s.axiom(z3.And(t1 > 0, t2 > t1))
+        nlo.fields["_changed"] = S("real", t1)
+        nro = s.obj(side_of(s, new, 1))
+        nro.fields.update({"_oid": NONE, "_path": NONE, "_sync_path": NONE, "_sync_hash": NONE, "_hash": NONE,
+                           "_changed": NONE, "_exists": enum_member(eng, "cloudsync.sync.state:Exists", "UNKNOWN")})
+        no = s.obj(new)
+        no.fields["_ignored"] = enum_member(eng, "cloudsync.types:IgnoreReason", "NONE")
+        no.fields["_storage_id"] = NONE
+        # defer entry: LOCAL cleared, REMOTE marked changed and unsynced
+        olo.fields.update({"_exists": enum_member(eng, "cloudsync.sync.state:Exists", "UNKNOWN"), "_changed": NONE,
+                           "_hash": NONE, "_sync_hash": NONE, "_sync_path": NONE, "_path": NONE, "_oid": NONE,
+                           "_size": NONE, "_mtime": NONE})
+        s.touch(olo)
+        oro = s.obj(side_of(s, ent, 1))
+        oro.fields["_changed"] = S("real", t2)
+        oro.fields["_sync_path"] = NONE
+        s.touch(oro)
+        for e2 in (ent, new):
+            cs = s.obj(s.obj(self_v).fields["_changeset_storage"])
+            ds = s.obj(s.obj(self_v).fields["_dirtyset"])
+            for o_ in (cs, ds):
+                mm = dict(o_.meta["members"])
+                mm[e2.addr] = z3.Bool(P.fresh_name("split.member")) if o_ is cs else BT
+                o_.meta = dict(o_.meta)
+                o_.meta["members"] = mm
+                s.touch(o_)
+        s.effects.append(Effect("state", "split", [ent], {}, None))
+        res.append((s, (VAL, T([ent, C(1), new, C(0)]))))
+    return res
+
+
+def install_split_contract(eng):
+    eng.handlers["cloudsync.sync.state:SyncState.split"] = h_split
